@@ -9,8 +9,8 @@ META = {
     "harness_bins": ["c12"],
     "extract": "C12.v",
     "technique": "Coq proof about an executable call-by-need abstract machine (thunk states Suspended/Blackholed/Evaluated, update frames, unwind, REPL session layer with per-input step budget): invariant black-holed = referenced by an update frame, soundness of memoised cells, and refinement of every session evaluation to a heap-free call-by-name evaluator of the stand-alone `let`-chain, for all histories including failed and abandoned evaluations; machine model and call-by-name spec are tied to the real ReplImpl / Program by differential replay of generated histories, and every input is also compared with a fresh stand-alone Program (direct oracle)",
-    "level_text": "Theorems (coq/Props/C12.v, closed under the global context, no axioms) quantify over EVERY history of REPL inputs (let-definitions, eval, full eval, :query; each succeeding, failing at any depth, or abandoned after any number of machine steps = hook H1 budget) of the mechanism model coq/Mech/Machine.v (an executable reading of eval/mod.rs main loop, lazy.rs thunk states, stack.rs unwind, repl/mod.rs eval_): (1) blackhole_iff_on_stack: in every reachable configuration the black-holed thunks are exactly (multiset-exact) the thunks of the update frames; (2) unwind_clean / session_heap_good: after Drop/unwind no thunk is black-holed or locked and nothing else changed; (3) evaluated_cells_sound: every Evaluated thunk holds the call-by-name value of the closure it was created with; (4) session_equiv / session_equiv_full / session_equiv_query: an eval, a full evaluation or a :query in the session after any history yields the value / error class of the heap-free call-by-name meaning (coq/Mech/Spec.v) of `let x1 = e1 in ... in e`, and a reported InfiniteRecursion implies that this meaning diverges for every fuel (never spurious); session_vs_fresh: same outcome as the machine on an empty session whenever neither exhausts its budget; (5) the machine without unwinding is refuted by a vm_compute witness. Language of the model: variables, functions, let / let rec, integers, booleans, strict + - < with run-time type errors, if, recursive records with field access, std.fail_with; divergence and genuine infinite recursion are derivable. The model and the spec are hand-written; the tie to /repo is the correspondence run: the same generated histories (exhaustive over an 8-input alphabet after a 2-definition prelude up to length 4 in the thorough tier, seeded samples) are run on the extracted model, on the extracted call-by-name spec, on the real ReplImpl (budgets via verif_hooks::set_fuel) and, input by input, on fresh stand-alone Programs; additionally `:load` histories and repeated evaluation of ONE Program are checked against the fresh-Program oracle only.",
-    "level_note": "Trusted: Coq kernel (vm_compute only in the two _broken_refuted witnesses and Examples); extraction (ExtrOcamlBasic + ExtrOcamlNativeString); the hand-written reading of the Rust code in Machine.v (modelled, not verified: tied by correspondence only); hook H1; harness bin c12 and its s-expression -> Nickel printer; the generator. Modelling deviations, all stated in Machine.v: update_at_indices pops one frame per model step (Rust: all consecutive frames in one loop iteration); if-then-else uses one frame instead of Op1Cont + 2 Args; %force% (eval_full) and :query are drivers that start one machine run per thunk instead of re-scheduling inside one run (same thunks, same order, same values); ReplImpl's typechecking/unbound-identifier rejection is not modelled (generated inputs are well-scoped). session_equiv is proved for each of eval (weak head normal form), eval_full (deep data) and :query as the observed input, after histories containing all four input kinds. Outside the model (checked by the direct oracle of the correspondence run only, or not at all): `:load`, the `locked` flag protocol of Program::eval_record_spine/eval_guarded, revertible thunks (merge/overriding), contracts, arrays, strings, imports and the stdlib's own thunks are outside the model (the last only through std.fail_with in the differential run).",
+    "level_text": "Theorems (coq/Props/C12.v, closed under the global context, no axioms) quantify over EVERY history of inputs (let-definitions, eval, full eval, :query, eval_record_spine; each succeeding, failing at any depth, or abandoned after any number of machine steps = hook H1 budget) of the mechanism model coq/Mech/Machine.v (an executable reading of eval/mod.rs main loop, lazy.rs thunk states, stack.rs unwind, repl/mod.rs eval_): (1) blackhole_iff_on_stack: in every reachable configuration the black-holed thunks are exactly (multiset-exact) the thunks of the update frames; (2) unwind_clean / session_heap_good: after Drop/unwind no thunk is black-holed or locked and nothing else changed; (3) evaluated_cells_sound: every Evaluated thunk holds the call-by-name value of the closure it was created with; (4) session_equiv / session_equiv_full / session_equiv_query: an eval, a full evaluation or a :query in the session after any history yields the value / error class of the heap-free call-by-name meaning (coq/Mech/Spec.v) of `let x1 = e1 in ... in e`, and a reported InfiniteRecursion implies that this meaning diverges for every fuel (never spurious); session_vs_fresh: same outcome as the machine on an empty session whenever neither exhausts its budget; (5) the lock/unlock protocol of Program::eval_record_spine (eval_guarded) is modelled as a fifth input kind: every lock taken is released, also on the error / budget path (part of session_heap_good); (6) the machine without unwinding, and eval_guarded without the unlock on the error path, are refuted by vm_compute witnesses. Language of the model: variables, functions, let / let rec, integers, booleans, strict + - < with run-time type errors, if, recursive records with field access, std.fail_with; divergence and genuine infinite recursion are derivable. The model and the spec are hand-written; the tie to /repo is the correspondence run: the same generated histories (exhaustive over an 8-input alphabet after a 2-definition prelude up to length 4 in the thorough tier, seeded samples) are run on the extracted model, on the extracted call-by-name spec, on the real ReplImpl (budgets via verif_hooks::set_fuel) and, input by input, on fresh stand-alone Programs; additionally `:load` histories and repeated evaluation of ONE Program are checked against the fresh-Program oracle only.",
+    "level_note": "Trusted: Coq kernel (vm_compute only in the two _broken_refuted witnesses and Examples); extraction (ExtrOcamlBasic + ExtrOcamlNativeString); the hand-written reading of the Rust code in Machine.v (modelled, not verified: tied by correspondence only); hook H1; harness bin c12 and its s-expression -> Nickel printer; the generator. Modelling deviations, all stated in Machine.v: update_at_indices pops one frame per model step (Rust: all consecutive frames in one loop iteration); if-then-else uses one frame instead of Op1Cont + 2 Args; %force% (eval_full) and :query are drivers that start one machine run per thunk instead of re-scheduling inside one run (same thunks, same order, same values); ReplImpl's typechecking/unbound-identifier rejection is not modelled (generated inputs are well-scoped). session_equiv is proved for each of eval (weak head normal form), eval_full (deep data) and :query as the observed input, after histories containing all four input kinds. Outside the model (checked by the direct oracle of the correspondence run only, or not at all): `:load`, revertible thunks (merge/overriding), contracts, arrays, strings, imports and the stdlib's own thunks are outside the model (the last only through std.fail_with in the differential run).",
 }
 
 NAMES = ["x", "y", "z", "w"]
@@ -257,6 +257,11 @@ def compare(ck, mode, cases, impl_out, model_out, spec_out):
             model = [s.strip() for s in ms.split(" | ")]
             states = st.split()
             spec = [s.strip() for s in spec_out[idx].split(" | ")]
+            if mode == "program":
+                keep = [n for n, i in enumerate(split_inputs(case)) if key_of(i) in ("eval", "full", "spine")]
+                model = [model[n] for n in keep if n < len(model)]
+                states = [states[n] for n in keep if n < len(states)]
+                spec = [spec[n] for n in keep if n < len(spec)]
             if len(model) != len(inputs) or len(spec) != len(inputs):
                 ck.obligation("correspondence-run:model-arity", "internal", False, "case %s\n%s\n%s" % (case, m, spec_out[idx]))
                 continue
@@ -317,7 +322,9 @@ def compare(ck, mode, cases, impl_out, model_out, spec_out):
             else:
                 ck.count(mode + ":model_eq_session")
             # call-by-name spec vs the real stand-alone program
-            if p == "ERR Budget" or o == "ERR Budget":
+            if p == "-":
+                pass
+            elif p == "ERR Budget" or o == "ERR Budget":
                 # genuine infinite recursion is divergence in the call-by-name meaning
                 ck.count(mode + ":spec_inconclusive_budget")
                 if o == "ERR InfiniteRec" or p != "ERR Budget":
@@ -409,7 +416,7 @@ def run(ck):
     run_stream(ck, "repl-load", lcases, exe_impl, exe_model, with_model=False)
     # 3. one Program evaluated repeatedly (budgeted, then unlimited): direct oracle only
     pcases = program_cases(cases[len(corpus()) + len(ex):][: (120 if quick else 4000)] + ex[: (40 if quick else 1500)])
-    run_stream(ck, "program", pcases, exe_impl, exe_model, with_model=False)
+    run_stream(ck, "program", pcases, exe_impl, exe_model, with_model=True)
     # 4. one VmContext re-used for several sources importing the same files (nickel::Context)
     ccases = [gen_context_history(rng.fork(), 6) for _ in range(80 if quick else 3000)]
     run_stream(ck, "context", ccases, exe_impl, exe_model, with_model=False)
@@ -428,4 +435,4 @@ def replay(ck, path):
     exe_model = ck.model("C12.v")
     if ok and exe_model and "case" in obj:
         mode = obj.get("mode", "repl")
-        run_stream(ck, mode if mode in ("program", "context") else "repl", [obj["case"]], core.harness_bin("c12"), exe_model, with_model=(mode == "repl"))
+        run_stream(ck, mode if mode in ("program", "context") else "repl", [obj["case"]], core.harness_bin("c12"), exe_model, with_model=(mode in ("repl", "program")))
